@@ -16,7 +16,7 @@ PROPS = {
                 "patterns, windows, sparse, short, uniform), built either through Decode (canonical domain) or by writing "
                 "Montgomery limbs; plus fixed boundary scalars. Non-trivial: canonical value > 1. Distinct: by hash of the case. A quarter of the scalars are used objects (object history), a sixth are results of arithmetic; fixed cases sweep the ~10^4 limb-pattern values in both domains; low limbs include quotient-aimed words. endurance: one API function called 2^20+2^10 (quick; slower functions 2^17 or 2^13) or 2^24+2^12 (thorough; slowest 2^18) times in one process from call number 0, every call compared with a pre-computed model result, operands rotating through a table of boundary and ordinary values (rotation offset = shard); all cases non-trivial.",
         "units": [unit("props", "^TestC14", tier(800000, 8, 900), tier(16000000, 16, 5400)),
-                  unit("endure", "^TestEndure$", tier(1, 4, 900), tier(1, 2, 5400), env={"VERIF_ENDURE_PROP": "C14", "VERIF_SHARDS": "1"}, expects=["C14/endurance"])],
+                  unit("endure", "^TestEndure$", tier(1, 4, 900), tier(1, 2, 5400), env={"VERIF_ENDURE_PROP": "C14", "VERIF_SHARDS": "1", "VERIF_CASE_TIMEOUT_S": "3000"}, expects=["C14/endurance"])],
         "checks_expected": ["C14/bits"],
     },
     "C13": {
@@ -25,7 +25,7 @@ PROPS = {
                 "differ. cselect: condition words from {0,1,2,3,4,0xff,2^31,2^32,2^63,2^64-1,...} or uniform, operands in both domains, "
                 "nil operands, receiver aliasing an operand; non-trivial = cond not in {0,1}, u != v, no nil. Distinct: by case hash. Additional relations: several canonical words perturbed (64/32-bit), the same value once plain and once as the result of an arithmetic operation (equal-computed); fixed cases: all ordered pairs of the 256 values with limbs in {0,1,2^63,2^64-1}, in both domains. after-failed-call: a scalar object whose last call failed (rejected 32-byte input in [n, 2^256) through the three decoders, CSelect with a nil operand) is compared with a fresh scalar holding the value it encodes to and with an unrelated scalar; all cases non-trivial. endurance: one API function called 2^20+2^10 (quick; slower functions 2^17 or 2^13) or 2^24+2^12 (thorough; slowest 2^18) times in one process from call number 0, every call compared with a pre-computed model result, operands rotating through a table of boundary and ordinary values (rotation offset = shard); all cases non-trivial.",
         "units": [unit("props", "^TestC13", tier(800000, 8, 900), tier(16000000, 16, 5400)),
-                  unit("endure", "^TestEndure$", tier(1, 4, 900), tier(1, 2, 5400), env={"VERIF_ENDURE_PROP": "C13", "VERIF_SHARDS": "1"}, expects=["C13/endurance"])],
+                  unit("endure", "^TestEndure$", tier(1, 4, 900), tier(1, 2, 5400), env={"VERIF_ENDURE_PROP": "C13", "VERIF_SHARDS": "1", "VERIF_CASE_TIMEOUT_S": "3000"}, expects=["C13/endurance"])],
         "checks_expected": ["C13/compare", "C13/cselect", "C13/after-failed-call"],
     },
     "C06": {
@@ -33,7 +33,7 @@ PROPS = {
                 "operands from the boundary-biased generator in canonical (via Decode) and Montgomery-limb domains; 10% aliased, 10% nil. "
                 "Oracle math/big mod n plus stored-limbs canonicity. Non-trivial = an operand (or the uint64) is > 1. Distinct by case hash. mul and square get a larger share; a quarter of the operands are used objects, a sixth are results of arithmetic (provenance); fixed cases sweep all values whose Montgomery limbs come from ten limb patterns (about 10^4) through square and aliased mul/add. Random limbs are uniform (gen.U64). endurance: one API function called 2^20+2^10 (quick; slower functions 2^17 or 2^13) or 2^24+2^12 (thorough; slowest 2^18) times in one process from call number 0, every call compared with a pre-computed model result, operands rotating through a table of boundary and ordinary values (rotation offset = shard); all cases non-trivial.",
         "units": [unit("props", "^TestC06", tier(600000, 8, 900), tier(12000000, 16, 5400, fuzztime=90), fuzz=["FuzzScalarOps"]),
-                  unit("endure", "^TestEndure$", tier(1, 4, 900), tier(1, 2, 5400), env={"VERIF_ENDURE_PROP": "C06", "VERIF_SHARDS": "1"}, expects=["C06/endurance"])],
+                  unit("endure", "^TestEndure$", tier(1, 4, 900), tier(1, 2, 5400), env={"VERIF_ENDURE_PROP": "C06", "VERIF_SHARDS": "1", "VERIF_CASE_TIMEOUT_S": "3000"}, expects=["C06/endurance"])],
         "checks_expected": ["C06/ops"],
     },
     "C07": {
@@ -42,7 +42,7 @@ PROPS = {
                 "upper/mixed case, odd length, non-hex rune); non-trivial = 32-byte input within 2^128 of n or differing from n in one "
                 "limb, or a non-empty wrong length, or malformed hex. encode: scalars in both domains; non-trivial = value > 1. Plus n with several 64- or 32-bit words perturbed at once; every decode case is evaluated twice in a row; the caller overwrites the slice returned by Order() before every case. endurance: one API function called 2^20+2^10 (quick; slower functions 2^17 or 2^13) or 2^24+2^12 (thorough; slowest 2^18) times in one process from call number 0, every call compared with a pre-computed model result, operands rotating through a table of boundary and ordinary values (rotation offset = shard); all cases non-trivial.",
         "units": [unit("props", "^TestC07", tier(600000, 8, 900), tier(12000000, 16, 5400, fuzztime=90), fuzz=["FuzzScalarDecode"]),
-                  unit("endure", "^TestEndure$", tier(1, 4, 900), tier(1, 2, 5400), env={"VERIF_ENDURE_PROP": "C07", "VERIF_SHARDS": "1"}, expects=["C07/endurance"])],
+                  unit("endure", "^TestEndure$", tier(1, 4, 900), tier(1, 2, 5400), env={"VERIF_ENDURE_PROP": "C07", "VERIF_SHARDS": "1", "VERIF_CASE_TIMEOUT_S": "3000"}, expects=["C07/endurance"])],
         "checks_expected": ["C07/decode", "C07/encode"],
     },
     "C01": {
@@ -54,7 +54,7 @@ PROPS = {
                 "sums (model and implementation Add). metamorphic: [a]P+[n-a]P=O, [a]P+[b]P=[a+b]P, [a]([b]P)=[ab]P, [n-1]P=-P; "
                 "non-trivial = a,b > 1 and P != O. Distinct by case hash. Scalars come from gen.IntBoth (the boundary pattern may sit in the Montgomery form); in a third of the cases the scalar object was used before and received k through a mutator (object history). endurance: one API function called 2^20+2^10 (quick; slower functions 2^17 or 2^13) or 2^24+2^12 (thorough; slowest 2^18) times in one process from call number 0, every call compared with a pre-computed model result, operands rotating through a table of boundary and ordinary values (rotation offset = shard); all cases non-trivial.",
         "units": [unit("wb", "^TestC01", tier(12000, 8, 900), tier(480000, 16, 5400), overlay="access"),
-                  unit("endure", "^TestEndure$", tier(1, 4, 900), tier(1, 2, 5400), env={"VERIF_ENDURE_PROP": "C01", "VERIF_SHARDS": "1"}, expects=["C01/endurance"])],
+                  unit("endure", "^TestEndure$", tier(1, 4, 900), tier(1, 2, 5400), env={"VERIF_ENDURE_PROP": "C01", "VERIF_SHARDS": "1", "VERIF_CASE_TIMEOUT_S": "3000"}, expects=["C01/endurance"])],
         "checks_expected": ["C01/reference", "C01/kfold", "C01/metamorphic"],
     },
     "C02": {
@@ -65,7 +65,7 @@ PROPS = {
                 "must be a valid projective point, argument value unchanged. Non-trivial = anything but 'independent, both Z=1, neither "
                 "identity'. Distinct by case hash. In a third of the add/sub/double cases one named intermediate of the formula (X1X2, Z1Z2, X1Z2+X2Z1, Y^2, Z^2, ...) is aimed at a boundary value by re-scaling an operand (white-box). endurance: one API function called 2^20+2^10 (quick; slower functions 2^17 or 2^13) or 2^24+2^12 (thorough; slowest 2^18) times in one process from call number 0, every call compared with a pre-computed model result, operands rotating through a table of boundary and ordinary values (rotation offset = shard); all cases non-trivial.",
         "units": [unit("wb", "^TestC02", tier(200000, 8, 900), tier(8000000, 16, 5400), overlay="access"),
-                  unit("endure", "^TestEndure$", tier(1, 4, 900), tier(1, 2, 5400), env={"VERIF_ENDURE_PROP": "C02", "VERIF_SHARDS": "1"}, expects=["C02/endurance"])],
+                  unit("endure", "^TestEndure$", tier(1, 4, 900), tier(1, 2, 5400), env={"VERIF_ENDURE_PROP": "C02", "VERIF_SHARDS": "1", "VERIF_CASE_TIMEOUT_S": "3000"}, expects=["C02/endurance"])],
         "checks_expected": ["C02/grouplaw"],
     },
     "C04": {
@@ -74,7 +74,7 @@ PROPS = {
                 "round-trip through Decode (identity included); two representations encode identically. Non-trivial = identity, Z != 1, "
                 "odd y, or any recipe step. Distinct by case hash. Bases may be decoded into a used receiver object (Reuse) or into the element itself (selfdec); coordinate targets aim raw X/Y/Z (or their Montgomery limbs) at boundary patterns, incl. the word-wise neighbourhood of Montgomery-1; a receiver with Z != 1 also decodes the points whose affine x equals its raw X. endurance: one API function called 2^20+2^10 (quick; slower functions 2^17 or 2^13) or 2^24+2^12 (thorough; slowest 2^18) times in one process from call number 0, every call compared with a pre-computed model result, operands rotating through a table of boundary and ordinary values (rotation offset = shard); all cases non-trivial.",
         "units": [unit("wb", "^TestC04", tier(120000, 8, 900), tier(4800000, 16, 5400), overlay="access"),
-                  unit("endure", "^TestEndure$", tier(1, 4, 900), tier(1, 2, 5400), env={"VERIF_ENDURE_PROP": "C04", "VERIF_SHARDS": "1"}, expects=["C04/endurance"])],
+                  unit("endure", "^TestEndure$", tier(1, 4, 900), tier(1, 2, 5400), env={"VERIF_ENDURE_PROP": "C04", "VERIF_SHARDS": "1", "VERIF_CASE_TIMEOUT_S": "3000"}, expects=["C04/endurance"])],
         "checks_expected": ["C04/encodings"],
     },
     "C05": {
@@ -83,7 +83,7 @@ PROPS = {
                 "values denoted by the raw coordinates; symmetry, 0/1 range, IsIdentity. Non-trivial = shared coordinate, an identity "
                 "involved, equal elements in different representations, or any recipe step. Distinct by case hash. Additional relation 'line' (distinct points with y_Q-y_P = m(x_Q-x_P), m in {+-1,+-2,+-3}); in a third of the cases one of the four cross products of the comparison is aimed at a boundary value by re-scaling (white-box). endurance: one API function called 2^20+2^10 (quick; slower functions 2^17 or 2^13) or 2^24+2^12 (thorough; slowest 2^18) times in one process from call number 0, every call compared with a pre-computed model result, operands rotating through a table of boundary and ordinary values (rotation offset = shard); all cases non-trivial.",
         "units": [unit("wb", "^TestC05", tier(200000, 8, 900), tier(8000000, 16, 5400), overlay="access"),
-                  unit("endure", "^TestEndure$", tier(1, 4, 900), tier(1, 2, 5400), env={"VERIF_ENDURE_PROP": "C05", "VERIF_SHARDS": "1"}, expects=["C05/endurance"])],
+                  unit("endure", "^TestEndure$", tier(1, 4, 900), tier(1, 2, 5400), env={"VERIF_ENDURE_PROP": "C05", "VERIF_SHARDS": "1", "VERIF_CASE_TIMEOUT_S": "3000"}, expects=["C05/endurance"])],
         "checks_expected": ["C05/equal"],
     },
     "C03": {
@@ -95,7 +95,7 @@ PROPS = {
                 "from the statement; accepted => exact point, rejected => error and unchanged receiver value. Non-trivial = every case "
                 "except random strings of a length no decoder accepts. Distinct by case hash. Every case is evaluated twice in a row (verdicts must not depend on the previous input); fixed cases enumerate the word-wise neighbourhood of p as compressed x exhaustively (625 + 6561 strings) and all 256 one-byte strings. endurance: one API function called 2^20+2^10 (quick; slower functions 2^17 or 2^13) or 2^24+2^12 (thorough; slowest 2^18) times in one process from call number 0, every call compared with a pre-computed model result, operands rotating through a table of boundary and ordinary values (rotation offset = shard); all cases non-trivial.",
         "units": [unit("props", "^TestC03", tier(120000, 8, 900), tier(8000000, 16, 5400, fuzztime=120), fuzz=["FuzzElementDecode"], overlay="access"),
-                  unit("endure", "^TestEndure$", tier(1, 4, 900), tier(1, 2, 5400), env={"VERIF_ENDURE_PROP": "C03", "VERIF_SHARDS": "1"}, expects=["C03/endurance"])],
+                  unit("endure", "^TestEndure$", tier(1, 4, 900), tier(1, 2, 5400), env={"VERIF_ENDURE_PROP": "C03", "VERIF_SHARDS": "1", "VERIF_CASE_TIMEOUT_S": "3000"}, expects=["C03/endurance"])],
         "checks_expected": ["C03/decoders"],
     },
     "C08": {
@@ -105,7 +105,7 @@ PROPS = {
                 "implementation (sum taken on secp256k1 after the isogeny), determinism, result decodes. Non-trivial = every case with a "
                 "non-empty DST (classes of the model's branch trace are counted). Distinct by case hash. Fixed cases: exhaustive grid of message lengths 0..300 x 11 DST lengths (thorough: 0..1100 x 26). sequence: 2..6 calls from re-used caller buffers overwritten in place between calls. endurance: one API function called 2^20+2^10 (quick; slower functions 2^17 or 2^13) or 2^24+2^12 (thorough; slowest 2^18) times in one process from call number 0, every call compared with a pre-computed model result, operands rotating through a table of boundary and ordinary values (rotation offset = shard); all cases non-trivial.",
         "units": [unit("props", "^TestC08", tier(40000, 8, 900), tier(1600000, 16, 5400, fuzztime=120), fuzz=["FuzzHashToCurve"]),
-                  unit("endure", "^TestEndure$", tier(1, 4, 900), tier(1, 2, 5400), env={"VERIF_ENDURE_PROP": "C08", "VERIF_SHARDS": "1"}, expects=["C08/endurance"])],
+                  unit("endure", "^TestEndure$", tier(1, 4, 900), tier(1, 2, 5400), env={"VERIF_ENDURE_PROP": "C08", "VERIF_SHARDS": "1", "VERIF_CASE_TIMEOUT_S": "3000"}, expects=["C08/endurance"])],
         "checks_expected": ["C08/hash2curve", "C08/sequence"],
     },
     "C09": {
@@ -115,7 +115,7 @@ PROPS = {
                 ">= n. expander (white-box): expandXMD(msg, DST, L) for L in {48, 96} against the model. Distinct by case hash. hash2scalar has the same length grid; sequence as for C08; widereduce also draws high parts equal to floor(2^k/c) +- d for c = 2^256 - n and fold-boundary limbs. endurance: one API function called 2^20+2^10 (quick; slower functions 2^17 or 2^13) or 2^24+2^12 (thorough; slowest 2^18) times in one process from call number 0, every call compared with a pre-computed model result, operands rotating through a table of boundary and ordinary values (rotation offset = shard); all cases non-trivial.",
         "units": [unit("props", "^TestC09", tier(80000, 8, 900), tier(3200000, 16, 5400), expects=["C09/hash2scalar", "C09/sequence"]),
                   unit("widepkg", "^TestC09", tier(800000, 8, 900), tier(16000000, 16, 5400), overlay="access", optional=True, expects=["C09/widereduce", "C09/expander"]),
-                  unit("endure", "^TestEndure$", tier(1, 4, 900), tier(1, 2, 5400), env={"VERIF_ENDURE_PROP": "C09", "VERIF_SHARDS": "1"}, expects=["C09/endurance"])],
+                  unit("endure", "^TestEndure$", tier(1, 4, 900), tier(1, 2, 5400), env={"VERIF_ENDURE_PROP": "C09", "VERIF_SHARDS": "1", "VERIF_CASE_TIMEOUT_S": "3000"}, expects=["C09/endurance"])],
         "checks_expected": [],
     },
     "C11": {
@@ -124,7 +124,7 @@ PROPS = {
                 "E.1 isogeny in the model; also on-E', sgn0 rule, SSWU(-u) = -SSWU(u), image on secp256k1. isogeny (white-box): "
                 "points of E' built by the model from boundary-biased abscissae, both signs. Non-trivial = all (duplicates removed by hash). A third of the sswu cases solve u so that tv1 = Z u^2 or tv2 = tv1^2 + tv1 takes a boundary pattern; a third of the isogeny cases aim 1/x_den or y_den. endurance: one API function called 2^20+2^10 (quick; slower functions 2^17 or 2^13) or 2^24+2^12 (thorough; slowest 2^18) times in one process from call number 0, every call compared with a pre-computed model result, operands rotating through a table of boundary and ordinary values (rotation offset = shard); all cases non-trivial.",
         "units": [unit("mappkg", "^TestC11", tier(80000, 8, 900), tier(3200000, 16, 5400), overlay="access"),
-                  unit("endureint", "^TestEndure$", tier(1, 4, 900), tier(1, 2, 5400), env={"VERIF_ENDURE_PROP": "C11", "VERIF_SHARDS": "1"}, expects=["C11/endurance"], optional=True)],
+                  unit("endureint", "^TestEndure$", tier(1, 4, 900), tier(1, 2, 5400), env={"VERIF_ENDURE_PROP": "C11", "VERIF_SHARDS": "1", "VERIF_CASE_TIMEOUT_S": "3000"}, expects=["C11/endurance"], optional=True)],
         "checks_expected": ["C11/sswu", "C11/isogeny"],
     },
     "C12": {
@@ -134,7 +134,7 @@ PROPS = {
                 "squares. Oracle math/big mod p, canonicity of stored limbs. Non-trivial = an operand > 1. bytes: 32-byte strings around "
                 "p (p+-d, one limb replaced, top of range) for the parser flag/value, 48-byte classes for the wide reduction. mul and square get a larger share; exhaustive sweep of the ~10^4 limb-pattern elements through square/neg/iszero/sgn0/bytes; parser fixed cases enumerate the word-wise neighbourhood of p; 48-byte classes include fold-boundary limbs and quotient-by-defect high parts. endurance: one API function called 2^20+2^10 (quick; slower functions 2^17 or 2^13) or 2^24+2^12 (thorough; slowest 2^18) times in one process from call number 0, every call compared with a pre-computed model result, operands rotating through a table of boundary and ordinary values (rotation offset = shard); all cases non-trivial.",
         "units": [unit("fieldpkg", "^TestC12", tier(800000, 8, 900), tier(16000000, 16, 5400, fuzztime=90), fuzz=["FuzzFieldOps"]),
-                  unit("endureint", "^TestEndure$", tier(1, 4, 900), tier(1, 2, 5400), env={"VERIF_ENDURE_PROP": "C12", "VERIF_SHARDS": "1"}, expects=["C12/endurance"], optional=True)],
+                  unit("endureint", "^TestEndure$", tier(1, 4, 900), tier(1, 2, 5400), env={"VERIF_ENDURE_PROP": "C12", "VERIF_SHARDS": "1", "VERIF_CASE_TIMEOUT_S": "3000"}, expects=["C12/endurance"], optional=True)],
         "checks_expected": ["C12/ops", "C12/bytes"],
     },
     "C10": {
@@ -166,7 +166,7 @@ PROPS = {
                 "block is complete (must panic) or >= 64 bytes after it (must succeed). Oracle: first complete block with v mod n != 0, "
                 "reduced. Non-trivial = more than one block, a fault, or a first block >= n. Distinct by case hash. The failing source presents one of ten error identities (custom, EOF, ErrUnexpectedEOF, EINTR, EAGAIN, wrapped EINTR, PathError, timeout, ErrClosed, bytes+error). endurance: one API function called 2^20+2^10 (quick; slower functions 2^17 or 2^13) or 2^24+2^12 (thorough; slowest 2^18) times in one process from call number 0, every call compared with a pre-computed model result, operands rotating through a table of boundary and ordinary values (rotation offset = shard); all cases non-trivial.",
         "units": [unit("props", "^TestC18", tier(400000, 8, 900), tier(16000000, 16, 5400)),
-                  unit("endure", "^TestEndure$", tier(1, 4, 900), tier(1, 2, 5400), env={"VERIF_ENDURE_PROP": "C18", "VERIF_SHARDS": "1"}, expects=["C18/endurance"])],
+                  unit("endure", "^TestEndure$", tier(1, 4, 900), tier(1, 2, 5400), env={"VERIF_ENDURE_PROP": "C18", "VERIF_SHARDS": "1", "VERIF_CASE_TIMEOUT_S": "3000"}, expects=["C18/endurance"])],
         "checks_expected": ["C18/random"],
     },
     "C16": {
